@@ -298,3 +298,15 @@ PROPS["C06"] = dict(
                  "default-activation trajectories on ordinary values are not recomputed (no reals in TLA+)"],
     stages=_c06,
 )
+
+PROPS["C12"] = dict(
+    rule="BFS: 11 element types x {typed field, raw} x 6 shapes of rank 0..4 x element bit patterns (zero, one, all ones, MIN, MAX, NaN with "
+         "payload, -0, subnormal, mixed bytes) x carrier fill (sign / zero extended) x payload length {exact, empty, one element short, "
+         "one element long, one byte short, one byte long, both encodings populated}, negative and zero dims; every other data_type code "
+         "(0, 8, 10, 14, 15, 16, 17, -1, 99) with each typed field and raw data; supported types with the payload in a wrong typed field; "
+         "each observed through onnx.TensorFromProto and through NewModelFromBytes + Run; comparison of dtype, shape and exact element "
+         "bits; non-trivial = every case with a definite value or error outcome",
+    assumptions=["when both a typed field and raw data are populated the typed field is the payload (library convention; ONNX allows only one)",
+                 "bool payload bytes other than 0/1 and zero-element tensors are no-crash only"],
+    stages=lambda tier: [mc("decode", "MC_C12.tla", "MC_C12_quick.cfg", min_cases=1500)],
+)
